@@ -233,7 +233,7 @@ def run(modules, seed=0, n=12, repo=None):
         return vals
 
     imports = []
-    if "Gen" in modules or "Gen2" in modules:
+    if any(m in modules for m in ("Gen", "Gen2", "TransferGen")):
         imports += ["CR.Extracted.Gen", "CR.Extracted.Manual"]
         rg, sg = mods["roberta_generator"], mods["stochastic_game_from_roborta_board"]
         if rg is not None:
@@ -301,7 +301,7 @@ def run(modules, seed=0, n=12, repo=None):
                     kw = {p: copy.deepcopy(case[p]) for p in ps}
                     fuel = "200 " if unit in ("reverse_dfs_recursive", "reverse_dfs") else ""
                     add("CR.Ex.Rdfs", unit, cfg, vals, lambda u=unit, kw=kw: getattr(rd, u)(**kw), prefix_args="(A := Unit) " * 0 + fuel)
-    if "Tad" in modules:
+    if any(m in modules for m in ("Tad", "TransferTad", "Check")):
         imports += ["CR.Extracted.Tad"]
         tad = mods["tad"]
         # argument lists follow the emitted signatures (the pseudo parameters depend on what each method reads)
